@@ -449,6 +449,16 @@ class Reader:
         elif self.at_keyword("exit"):
             self.consume_keyword("exit")
             ins = ir.Exit()
+        elif self.at_keyword("memcpy"):
+            self.consume_keyword("memcpy")
+            self.consume("(")
+            dst = self.parse_value_ref()
+            self.consume(",")
+            src = self.parse_value_ref()
+            self.consume(",")
+            amount = self.parse_integer()
+            self.consume(")")
+            ins = ir.CopyBlob(dst, src, amount)
         elif self.at_keyword("call"):
             self.consume_keyword("call")
             callee = self.parse_value_ref()
